@@ -1898,6 +1898,28 @@ fn gen_install(rng: &mut Rng, info: &FontInfo, prop: &str) -> Option<(FontInfo, 
             },
         });
     }
+    let p_many = match prop {
+        "C02" => 0,
+        "C03" => 1,
+        "C09" => 3,
+        _ => 2,
+    };
+    if rng.pct(p_many) && info.has("head") {
+        // total table counts around the powers of two the header fields are derived from, and
+        // around 4096, where 16 x numTables stops fitting 16 bits
+        let have = info.tags().len();
+        let total = match rng.below(10) {
+            0..=3 => *rng.pick(&[31usize, 32, 33, 63, 64, 65, 255, 256, 257]),
+            4..=7 => *rng.pick(&[4094usize, 4095, 4096, 4097, 5000, 8191, 8192]),
+            _ => have + 1 + rng.usize_below(600),
+        };
+        if total > have {
+            surgeries.push(Surgery::ManyTables {
+                count: (total - have) as u16,
+                len: *rng.pick(&[0u16, 1, 3, 4, 5, 64]),
+            });
+        }
+    }
     if surgeries.is_empty() {
         return None;
     }
